@@ -308,40 +308,60 @@ func TestReplay(t *testing.T) {
 	ex := newExecutor()
 	mism := 0
 	for n, c := range cases {
-		rid := n + 1
-		o := execute(ex, context.Background(), rid, rid, c.Req, nil, false)
-		// expectation from the specification; reads use request id 1 in the model
-		expReads := [][2]any{}
-		for _, rd := range c.Reads {
-			i := int(rd[0].(float64))
-			v := rd[1].([]any)
-			tok := []int{}
-			if len(v) == 2 {
-				tok = []int{rid, int(v[1].(float64))}
+		// batch semantics are a function of the request message: the same case with a live context, with a context that is already
+		// cancelled when the request arrives (the client has gone away) and with one cancelled by the first handler that runs
+		for _, ctxMode := range []string{"live", "cancelled", "cancelled-by-handler"} {
+			rid := n + 1
+			parent := context.Background()
+			var cancelFn context.CancelFunc
+			switch ctxMode {
+			case "cancelled":
+				var cf context.CancelFunc
+				parent, cf = context.WithCancel(parent)
+				cf()
+			case "cancelled-by-handler":
+				parent, cancelFn = context.WithCancel(parent)
 			}
-			expReads = append(expReads, [2]any{i, tok})
-		}
-		var diffs []string
-		if o.Panic != "" {
-			diffs = append(diffs, "panic:"+o.Panic)
-		}
-		if norm(nz(o.Called)) != norm(nz(c.Called)) {
-			diffs = append(diffs, "called")
-		}
-		if norm(o.Resp) != norm(c.Resp) && !(len(o.Resp) == 0 && len(c.Resp) == 0) {
-			diffs = append(diffs, "resp")
-		}
-		if o.Hdr != c.Hdr {
-			diffs = append(diffs, "hdr")
-		}
-		if norm(nzr(o.Reads)) != norm(expReads) {
-			diffs = append(diffs, "reads")
-		}
-		if len(diffs) > 0 {
-			mism++
-			out.Emit(map[string]any{"case": n, "req": c.Req, "diffs": diffs,
-				"expect": map[string]any{"called": c.Called, "resp": c.Resp, "hdr": c.Hdr, "reads": expReads},
-				"got":    map[string]any{"called": o.Called, "resp": o.Resp, "hdr": o.Hdr, "reads": o.Reads, "panic": o.Panic}})
+			var o outcome
+			if cancelFn != nil {
+				o = execute(ex, parent, rid, rid, c.Req, nil, false, func(context.Context) { cancelFn() })
+				cancelFn()
+			} else {
+				o = execute(ex, parent, rid, rid, c.Req, nil, false)
+			}
+			// expectation from the specification; reads use request id 1 in the model
+			expReads := [][2]any{}
+			for _, rd := range c.Reads {
+				i := int(rd[0].(float64))
+				v := rd[1].([]any)
+				tok := []int{}
+				if len(v) == 2 {
+					tok = []int{rid, int(v[1].(float64))}
+				}
+				expReads = append(expReads, [2]any{i, tok})
+			}
+			var diffs []string
+			if o.Panic != "" {
+				diffs = append(diffs, "panic:"+o.Panic)
+			}
+			if norm(nz(o.Called)) != norm(nz(c.Called)) {
+				diffs = append(diffs, "called")
+			}
+			if norm(o.Resp) != norm(c.Resp) && !(len(o.Resp) == 0 && len(c.Resp) == 0) {
+				diffs = append(diffs, "resp")
+			}
+			if o.Hdr != c.Hdr {
+				diffs = append(diffs, "hdr")
+			}
+			if norm(nzr(o.Reads)) != norm(expReads) {
+				diffs = append(diffs, "reads")
+			}
+			if len(diffs) > 0 {
+				mism++
+				out.Emit(map[string]any{"case": n, "req": c.Req, "diffs": diffs, "ctx": ctxMode,
+					"expect": map[string]any{"called": c.Called, "resp": c.Resp, "hdr": c.Hdr, "reads": expReads},
+					"got":    map[string]any{"called": o.Called, "resp": o.Resp, "hdr": o.Hdr, "reads": o.Reads, "panic": o.Panic}})
+			}
 		}
 	}
 	out.Emit(map[string]any{"summary": true, "cases": len(cases), "mismatches": mism})
